@@ -187,3 +187,73 @@ def special_molecules():
     hub = [("Fe", 0, 0, 0)] + [("C", 0, 0, 0)] * 12
     out.append(("hub12", M(hub, [(0, i, 1) for i in range(1, 13)] + [(i, i + 1, 1) for i in range(1, 12)])))
     return out
+
+
+# ------------------------------------------------------------------ spec -> code: call scripts generated by TLC (spec/Calls.tla)
+def tlc_scripts(num, seed, max_objs=9, max_len=12):
+    cfg = f"SPECIFICATION CSpec\nCONSTANTS MaxObjs = {max_objs} MaxLen = {max_len}\nINVARIANT ScriptOK\nCONSTRAINT EmitScript\nCHECK_DEADLOCK FALSE\n"
+    r = tlc.run("Calls", cfg, workers=1, simulate=f"num={num}", depth=max_len + 2, seed=seed, timeout=600)
+    if r.rc != 0:
+        raise tlc.MachineryError("Calls simulation failed:\n" + r.error_text(1500))
+    seen, out = set(), []
+    for p in r.printed:
+        if isinstance(p, dict) and "script" in p:
+            key = json.dumps(p["script"])
+            if key not in seen:
+                seen.add(key); out.append(p["script"])
+    return out, r
+
+
+def run_script(sid, script, g, rng):
+    """execute one call script on real objects; object 1 of the script is the molecule g"""
+    S = Session(sid, note="tlc-script")
+    obj = {1: S.input(g)}
+    strings = {}
+    for name, o, new in script:
+        if name in ("canon", "relabel", "nxrelabel", "permute", "edit", "write") and obj.get(o) is None:
+            continue
+        if name == "canon":
+            obj[new] = S.canon(obj[o])
+        elif name == "ser":
+            if obj.get(o) is None:
+                continue
+            s = S.ser(obj[o])
+            if s is not None:
+                strings[new] = (s, obj[o])
+        elif name == "parse":
+            if o in strings:
+                obj[new] = S.parse(strings[o][0], of=strings[o][1])
+        elif name in ("relabel", "nxrelabel"):
+            live = S.objs[obj[o]]
+            n = live.number_of_nodes()
+            if sorted(live.nodes) != list(range(n)):
+                continue
+            p = gen.random_perm(rng, n)
+            h = nx.relabel_nodes(live, {a: p[a] for a in live.nodes}, copy=True) if name == "nxrelabel" else relabel(live, p, rng)
+            obj[new] = S.derive(obj[o], h, p)
+        elif name == "permute":
+            obj[new] = S.permute(obj[o], rng.choice([0.0, 0.1, 0.42, 0.7, 0.999]))
+        elif name == "edit":
+            live = S.objs[obj[o]]
+            if live.number_of_nodes() >= 2:
+                a, b = rng.sample(list(live.nodes), 2)
+                if live.has_edge(a, b):
+                    live.remove_edge(a, b)
+                else:
+                    live.add_edge(a, b, bond_type=1)
+                    live.edges[a, b][record.ETAG] = next(record._tagctr)
+                S.ev.append({"op": "mutate", "obj": obj[o], "g": record.project(live), "newcls": 800000 + 100 * obj[o] + len(S.ev) % 100})
+        elif name == "write":
+            lines = S.write(obj[o])
+            if lines:
+                fl = {x: repr(float(x)) for e in S.ev if e["op"] == "write" for tri in e["xyz6"] for x in tri}
+                obj[new] = S.read(lines, "V3000", "C09", floats=fl)
+    return S
+
+
+def script_sessions(rng, tier, n_quick=60):
+    scripts, r = tlc_scripts(40 if tier == "quick" else 400, rng.randrange(10**6))
+    rng.shuffle(scripts)
+    scripts = scripts[: (n_quick if tier == "quick" else 1200)]
+    pool = [g for _, g in special_molecules()] + [gen.random_molecule(rng, 7) for _ in range(40)]
+    return [run_script(f"script{i}", sc, copy.deepcopy(rng.choice(pool)), rng) for i, sc in enumerate(scripts)], r
